@@ -1,5 +1,44 @@
+//! libFuzzer target for C14: bytes -> small dataset of the property's domain -> export / re-import
+//! round-trip oracle of `kvh::rt_oracle` (the same one `harness/src/bin/c14.rs` uses).
+//! Stops (panics) only for failure signatures that are NOT listed as open known findings of C14 in
+//! /verif/known_findings.json, so the campaign keeps searching behind the known ones.
 #![no_main]
+use arbitrary::Unstructured;
+use kvh::rt_oracle::{ascii_json, check_roundtrip, decode_dataset, open_known_sigs, ByteSrc};
 use libfuzzer_sys::fuzz_target;
+use std::collections::HashSet;
+use std::sync::OnceLock;
+
+/// `Unstructured` as the byte source of the hand-written decoder: `arbitrary::<u8>()` yields the next
+/// input byte and 0 once the input is exhausted — the same contract as `rt_oracle::SliceSrc`, which the
+/// stable-toolchain replay of corpus and crash files uses.
+struct Src<'a>(Unstructured<'a>);
+
+impl<'a> ByteSrc for Src<'a> {
+    fn byte(&mut self) -> u8 {
+        self.0.arbitrary::<u8>().unwrap_or(0)
+    }
+}
+
+fn known() -> &'static HashSet<String> {
+    static K: OnceLock<HashSet<String>> = OnceLock::new();
+    K.get_or_init(|| {
+        // engine panics must reach the oracle's catch_unwind (libfuzzer-sys installs an aborting hook)
+        kvh::engine::install_panic_hook();
+        open_known_sigs("/verif")
+    })
+}
+
 fuzz_target!(|data: &[u8]| {
-    let _ = data;
+    let known = known();
+    let ds = decode_dataset(&mut Src(Unstructured::new(data)));
+    let new: Vec<(String, String)> = check_roundtrip(&ds).into_iter().filter(|(sig, _)| !known.contains(sig)).collect();
+    if !new.is_empty() {
+        for (sig, detail) in &new {
+            eprintln!("C14 VIOLATION sig={sig} :: {detail}");
+        }
+        eprintln!("dataset={}", ascii_json(&ds));
+        // libfuzzer-sys aborts the process when the target panics: this writes the crash file
+        panic!("C14 round trip violated: {}", new[0].0);
+    }
 });
